@@ -1,4 +1,5 @@
 import Dhcp.V4.Packet
+import Dhcp.Label
 /-
   Model of the DHCPv4 option *value types* (dhcpv4/option_*.go, dhcpv4/types.go,
   iana/archtype.go) and of the typed accessors on `*DHCPv4`
@@ -19,7 +20,7 @@ import Dhcp.V4.Packet
   (`RelayOptions` *results* are `Opts`: nothing branches on the nil-ness of a
   sub-option value.)
 
-  `DomainSearch` (rfc1035label) is not modelled here.
+  `DomainSearch` uses the rfc1035label model of `Dhcp/Label.lean` (C19).
 -/
 namespace Dhcp.V4
 open Dhcp
@@ -89,8 +90,7 @@ value type the accessor parses with (`+TrimRight` when trailing NULs are
 trimmed), sorted by name.  The regenerated fact `Gen.v4accCodes` (every method
 of `*DHCPv4` that reads `d.Options` with a constant code) must equal it, so an
 accessor that reads another code, parses with another type, or a new accessor
-the model does not know breaks the obligation. `DomainSearch` is listed
-although its value type is modelled elsewhere. -/
+the model does not know breaks the obligation. -/
 def accTable : List (Nat × String) :=
   [ (Code.autoConfigure.toNat, "AutoConfigure:GetByte"),
     (Code.bootfileName.toNat, "BootFileNameOption:GetString+TrimRight"),
@@ -440,8 +440,42 @@ def relayFromBytes (data : Bytes) : Option Opts := optsFromBytes Opts.empty data
 `Options.Marshal` into a nil buffer -/
 def relayToBytes (o : Opts) : GoBytes := goBuf (marshalOpts o)
 
+/-! ### rfc1035label.Labels as an option value (option_misc.go, RFC 3397) -/
+
+/-- `(*Labels).ToBytes()` with the nil-ness of the result: `l.original` is
+returned as it is (nil or not); `labelsToBytes` appends to a nil slice, so it
+is nil when nothing was written.  Same case analysis as `Label.Labels.toBytesR`. -/
+def labelsGoBytes (l : Label.Labels) : Res GoBytes :=
+  match Label.labelsFromBytes (Label.goBytes l.original) with
+  | .panic => .panic
+  | .err => .ok l.original
+  | .ok originalLabels =>
+    if l.original ≠ none ∧ originalLabels = l.labels then .ok l.original
+    else .ok (goBuf (Label.labelsToBytes l.labels))
+
+/-- the packet after `ToBytes` then `FromBytes`, as far as the accessors can
+see: a value that is nil or empty comes back as a nil slice under its key
+(`[code, 0]` on the wire, `append(nil, empty...)` in the option loop), any
+other value unchanged (split and re-joined when longer than 255). -/
+def GOpts.wire (o : GOpts) : GOpts :=
+  ⟨fun c => match o.f c with
+    | some (some (b :: bs)) => some (some (b :: bs))
+    | some _ => some none
+    | none => none⟩
+
 /-! ### The typed accessors of `*DHCPv4` -/
 namespace Acc
+
+/-- `DomainSearch() *rfc1035label.Labels`: `none` is the nil pointer; a panic
+inside the label decoder would propagate (C19: there is none). -/
+def domainSearch (o : GOpts) : Res (Option Label.Labels) :=
+  match o.get Code.domainSearch with
+  | none => .ok none
+  | some v =>
+    match Label.fromBytes v with
+    | .ok l => .ok (some l)
+    | .err => .ok none
+    | .panic => .panic
 
 def broadcastAddress (o : GOpts) : IP := getIP Code.broadcastAddress o
 def requestedIPAddress (o : GOpts) : IP := getIP Code.requestedIPAddress o
